@@ -1,5 +1,9 @@
 //! Shared harness glue between the explorer binaries and lexical's public API.
+pub mod cat;
 pub mod common;
+pub mod crash;
+#[cfg(feature = "format")]
+pub mod gen;
 pub mod floatfam;
 pub mod fmtcat;
 pub mod intglue;
